@@ -519,7 +519,39 @@ func propC20(w *World, r *Report, tier string) {
 	semOK := map[string]bool{}
 	for _, name := range []string{"Allocate", "Allocate_inRange"} {
 		if fn := get(name); fn != nil {
-			probs, _, _ := checkAllocFresh(w, fn)
+			probs, _, _, leaks, notFull := checkAllocSem(w, fn)
+			if name == "Allocate" {
+				// alloc.fail-only-full, decided inter-procedurally: every error return of the plain
+				// allocation lies behind the true edge of "offset == offset at entry", reached by advances
+				// made only past offsets just found in use.  It replaces the per-method verdict when that
+				// one does not find the shape in Allocate itself.
+				var keep []Finding
+				had := false
+				for _, f := range r.Findings {
+					if f.Rule == "alloc.fail-only-full" {
+						had = true
+						if len(notFull) == 0 {
+							r.rule(f.Rule).Discharged++
+							r.Note("alloc.fail-only-full: the per-method shape was not found in Allocate; decided inter-procedurally (alloc_sem.go): every error return follows a scan that came back to its starting offset having found every offset on the way in use")
+							continue
+						}
+						f.Msg += " — " + strings.Join(notFull, "; ")
+					}
+					keep = append(keep, f)
+				}
+				r.Findings = keep
+				if !had && len(notFull) > 0 {
+					r.Fail("alloc.fail-only-full", SSAFuncName(fn), "inter-procedural", fn.Pos(), strings.Join(notFull, "; "), nil)
+				}
+			}
+			// alloc.no-leak: a slot marked used is handed out - no error return after the mark
+			r.Site("alloc.no-leak")
+			if len(leaks) == 0 {
+				r.OK("alloc.no-leak")
+			}
+			for _, l := range leaks {
+				r.Fail("alloc.no-leak", SSAFuncName(fn), "error return after mark", fn.Pos(), l, nil)
+			}
 			semOK[name] = len(probs) == 0
 			if len(probs) > 0 {
 				r.Extra["alloc.sem/"+name] = probs
@@ -605,6 +637,7 @@ func propC20(w *World, r *Report, tier string) {
 		}
 	}
 	r.Expect("alloc.fresh", 2)
+	r.Expect("alloc.no-leak", 2)
 	r.Expect("alloc.bounds", 5)
 }
 
